@@ -2,6 +2,7 @@
 From Coq Require Import List Bool Arith String.
 Import ListNotations.
 From Lime Require Import Hs.Types Hs.Server Hs.Monitor Hs.ServerFacts Hs.MonitorFacts Props.HsCommon.
+From Lime Require Import Hs.Builder Hs.BuilderFacts.
 Open Scope string_scope.
 Open Scope list_scope.
 
@@ -63,3 +64,57 @@ Example C03_example :
   exists s enc, In (Sent s enc) (rr_trace (handle_channel s_repaired w_conf_plain w_oracle [w_new ""; w_auth])) /\
                 ss_state s = SEstablished /\ ss_to s = Some 1.
 Proof. eexists; eexists. split; [vm_compute; right; right; right; right; right; left; reflexivity|]. split; reflexivity. Qed.
+
+(* ---- the Authenticate callback a ServerBuilder installs (server.go: buildAuthenticate; Model H) ---- *)
+(* A known role comes from exactly one place: the guest rule for a name that is a UUID, or the installed
+   authenticator of the scheme of the object presented, asked about the presented identity and the presented
+   (decoded) secret.  The transport scheme, a missing authentication object, a scheme whose authenticator was
+   never installed and an undecodable secret never yield one - whatever the user's functions do. *)
+Theorem C03_builder_role_comes_from : forall fs pl ky ex u ident a round,
+  dispatch fs (pl, ky, ex) u ident a round = ARole ->
+  match a with
+  | AGuest => u = true
+  | APlain pw => exists f p, pl = Some f /\ pw = Some p /\ f_plain fs f ident p round = ARole
+  | AKey k => exists f p, ky = Some f /\ k = Some p /\ f_key fs f ident p round = ARole
+  | AExternal t i => exists f, ex = Some f /\ f_ext fs f ident t i round = ARole
+  | ATransport | ANil => False
+  end.
+Proof. exact role_comes_from. Qed.
+Print Assumptions C03_builder_role_comes_from.
+
+(* the schemes a builder offers: each at most once; a scheme is offered exactly when it is the default one
+   (transport) or one of the calls enabled it *)
+Theorem C03_builder_schemes : forall ops s,
+  NoDup (b_schemes (brun ops)) /\
+  mem s (b_schemes (brun ops)) = String.eqb s "transport" || existsb (enabled_by s) ops.
+Proof. intros ops s. split; [apply schemes_nodup|apply scheme_offered_iff]. Qed.
+Print Assumptions C03_builder_schemes.
+
+(* A Server built by any sequence of builder calls (with Build among them), serving any peer over any connection:
+   an established envelope is preceded by an Authenticate call whose object the dispatch accepted. *)
+Theorem C03_built_server_establishes_only_via_an_authenticator :
+  forall fs ops reg k tls_ok ins pre s enc post cap,
+  b_built (brun ops) = Some cap ->
+  rr_trace (handle_channel s_repaired (builder_conf (brun ops) k tls_ok) (builder_oracle fs (brun ops) reg) ins)
+    = pre ++ Sent s enc :: post ->
+  ss_state s = SEstablished ->
+  exists f sch cred encA round,
+    In (AuthCall f sch cred encA) pre /\ dispatch fs cap (is_uuid f) f (aobj_of sch cred) round = ARole.
+Proof. intros. eapply built_server_establishes_only_via_an_authenticator; eauto. Qed.
+Print Assumptions C03_built_server_establishes_only_via_an_authenticator.
+
+(* non-vacuity: a builder with the plain scheme, a peer presenting the right password *)
+Example C03_builder_example :
+  let fs := {| f_plain := fun _ i p _ => if Nat.eqb i p then ARole else AUnknown; f_key := fun _ _ _ _ => AUnknown;
+               f_ext := fun _ _ _ _ _ => AUnknown |} in
+  let ops := [BPlain 1; BBuild] in
+  let auth p := CSes {| cs_id := "SID"; cs_state := SAuthenticating; cs_enc := ""; cs_comp := ""; cs_scheme := "plain";
+                        cs_cred := Some p; cs_from := 1 |} in
+  let sel := CSes {| cs_id := "SID"; cs_state := SNegotiating; cs_enc := "none"; cs_comp := "none"; cs_scheme := "";
+                     cs_cred := None; cs_from := 0 |} in
+  let run p := rr_trace (handle_channel s_repaired (builder_conf (brun ops) (TTcp true) true)
+                                        (builder_oracle fs (brun ops) (fun f => RNode f)) [w_new ""; sel; auth p]) in
+  b_schemes (brun ops) = ["transport"; "plain"] /\
+  existsb (fun e => match e with Sent s _ => state_eqb (ss_state s) SEstablished | _ => false end) (run 1) = true /\
+  existsb (fun e => match e with Sent s _ => state_eqb (ss_state s) SEstablished | _ => false end) (run 2) = false.
+Proof. vm_compute. auto. Qed.
